@@ -176,8 +176,7 @@ XLATE = {
  'C02': "Translated code (regenerated from /repo on every run, Tie/C02): stream.incNonce / setLastChunkFlag / nonceIsZero proved, for every chunk index below 2^88, to be the model's nonce arithmetic (incNonce_tie: chunk i to chunk i+1 with all eleven counter bytes carrying; incNonce_wrap: its panic is exactly the counter wrap).",
  'C06': "Translated code (Tie/C06): stream.incNonce and setLastChunkFlag, regenerated from /repo on every run, proved to step the 88-bit big-endian counter by one and to set only the flag byte.",
  'C07': "Translated code (Tie/C07): the WHOLE header parser — format.Parse (intro line, Peek/ReadStanza loop, closing line and MAC), (*StanzaReader).ReadStanza (sticky error with its defer, opening-line checks, body-line loop), splitArgs, isValidString — is translated from /repo statement by statement on every run and PROVED, for every input, to return exactly what the model's Format.parse returns (header and unread remainder, or an error), given that format.DecodeString is the model's strict base64 (hypothesis; tied by the correspondence): the canonicity theorems above are about the parser as it stands in the source. The tail of Parse that unwinds bufio's read-ahead is outside the translated fragment (payload = unread remainder; checked by the correspondence).",
- 'C03': "Translated code (Tie/C03): format.Parse as translated from /repo on every run returns the model's header and remainder (parse_tie), so mac_covers_received_bytes speaks about the parser in the source.",
- 'C04': "Translated code (Tie/C04): age.multiUnwrap and (*ScryptIdentity).Unwrap, translated from /repo on every run, proved equal to the model's multiUnwrap / Identity.unwrapLog (first answer other than 'incorrect identity' decides; nothing matched ⇒ exactly ErrIncorrectIdentity).",
+ 'C04': "Translated code (Tie/C04): age.multiUnwrap, translated from /repo on every run, proved equal to the model's multiUnwrap for every per-stanza function and stanza list (first answer other than 'incorrect identity' decides; nothing matched ⇒ exactly ErrIncorrectIdentity).",
  'C10': "Translated code (Tie/C10): (*ScryptIdentity).unwrap and .Unwrap are translated from /repo on every run (format.DecodeString, scrypt.Key, aeadDecrypt abstract) and proved to answer what the model answers for every stanza, passphrase and maximum; scrypt_unwrap_no_kdf: handed a scrypt.Key that FAULTS when called, the translated code still returns normally whenever the model derives no key (non-canonical or too large work factor, wrong arity, bad salt, other type) — 'rejects without deriving a key' as a theorem about the source text; scrypt_Unwrap_alone: a passphrase stanza that is not alone is refused before DecodeString, scrypt.Key or aeadDecrypt is called.",
  'C14': "Translated code (Tie/C14): header_parser_returns (the translated format.Parse returns on EVERY input: no index/slice fault, no explicit panic, fuel len(input)+1 suffices) and scrypt_unwrap_no_kdf / scrypt_unwrap_kdf_bounded (no key derivation beyond the configured maximum) are theorems about code translated from /repo on every run.",
  'C09': "Translated code (Tie/C09): ALL of internal/bech32 (polymod, hrpExpand, verifyChecksum, createChecksum, convertBits, Encode, Decode) and plugin Encode/Parse{Identity,Recipient} are translated from /repo statement by statement on every run and PROVED, for every byte string incl. non-ASCII and invalid UTF-8, to return exactly what the model returns (decode_tie, encode_tie, parseIdentity_tie, ...): the theorems above are therefore about the functions as they stand in the source.",
